@@ -103,7 +103,7 @@ pub fn int_range_list(start: i64, end: i64) -> (r: Vec<SourcedValue>)
 // =========================================================================================
 // witness marker: quantifiers over sub-results are triggered on this (a quantifier cannot be
 // triggered on the recursive `ev` itself); the function's ensures mentions it for every result
-pub open spec fn wit(r: Result<SourcedValue>, w: W) -> bool { true }
+pub open spec fn wit(e: Expr, r: Result<SourcedValue>, w2: W) -> bool { true }
 pub open spec fn err_at(r: Result<SourcedValue>, loc: Location) -> bool {
     r matches Err(e) && (e matches Error::AtLoc{source, line, col} && line == loc.0 && col == loc.1)
 }
@@ -129,8 +129,64 @@ pub open spec fn namespace_of(tf: TypeFunctions, v: Value) -> Option<ObjectRef> 
         Value::Func(_) => Some(tf.funcs),
     }
 }
+// ---- object literal (C12): entries are evaluated in source order; a computed name must be a
+// string; `{a}` means `{"a": a}`; `x..` inlines the properties of the object x; a later entry for
+// the same key replaces an earlier one.  State threaded through the entries: (world, map so far).
+pub open spec fn wit_st(w: W, acc: Map<Seq<char>, SourcedValue>) -> bool { true }
+pub open spec fn wit_fail(i: nat, w: W, acc: Map<Seq<char>, SourcedValue>) -> bool { true }
+
+pub open spec fn entry_ok(tf: TypeFunctions, w: W, acc: Map<Seq<char>, SourcedValue>, item: PropItem, w2: W, acc2: Map<Seq<char>, SourcedValue>) -> bool
+    decreases item, 0int
+{
+    match item {
+        PropItem::Pair{name, value} => {
+            let (rk, w1) = sem_str(w, name);
+            rk matches Ok(k) && (exists|rv: Result<SourcedValue>, wv: W| #![trigger wit(value, rv, wv)] wit(value, rv, wv) && ev(tf, w1, value, rv, wv)
+                && (rv matches Ok(v) && w2 == wv && acc2 == acc.insert(k@, v)))
+        },
+        PropItem::Single{expr, is_spread, collect} => !collect && (
+            if is_spread {
+                exists|rv: Result<SourcedValue>, wv: W| #![trigger wit(expr, rv, wv)] wit(expr, rv, wv) && ev(tf, w, expr, rv, wv) && w2 == wv
+                    && (rv matches Ok(v) && (v.v matches Value::Object(o) && acc2 == acc.union_prefer_right(o.0.0@)))
+            } else {
+                expr.0 matches RawExpr::Var{name} && (sem_get(w, name@) matches Some(v) && w2 == w && acc2 == acc.insert(name@, v))
+            }),
+    }
+}
+pub open spec fn entry_fail(tf: TypeFunctions, w: W, item: PropItem, w2: W) -> bool
+    decreases item, 0int
+{
+    match item {
+        PropItem::Pair{name, value} => {
+            let (rk, w1) = sem_str(w, name);
+            match rk {
+                Err(_) => w2 == w1,      // a computed name that is not a string (or fails)
+                Ok(k) => exists|rv: Result<SourcedValue>, wv: W| #![trigger wit(value, rv, wv)] wit(value, rv, wv) && ev(tf, w1, value, rv, wv) && rv is Err && w2 == wv,
+            }
+        },
+        PropItem::Single{expr, is_spread, collect} =>
+            if collect { w2 == w }
+            else if is_spread {
+                exists|rv: Result<SourcedValue>, wv: W| #![trigger wit(expr, rv, wv)] wit(expr, rv, wv) && ev(tf, w, expr, rv, wv) && w2 == wv
+                    && (rv is Err || (rv matches Ok(v) && !(v.v is Object)))
+            } else {
+                w2 == w && !(expr.0 matches RawExpr::Var{name} && sem_get(w, name@) is Some)
+            },
+    }
+}
+// state after the first i entries all succeeded
+pub open spec fn lit_prefix(tf: TypeFunctions, w0: W, props: Seq<PropItem>, i: nat, w: W, acc: Map<Seq<char>, SourcedValue>) -> bool
+    decreases props, i
+{
+    if i == 0 { w == w0 && acc == Map::<Seq<char>, SourcedValue>::empty() }
+    else {
+        i <= props.len() && (exists|wp: W, ap: Map<Seq<char>, SourcedValue>| #![trigger wit_st(wp, ap)] wit_st(wp, ap)
+            && lit_prefix(tf, w0, props, (i - 1) as nat, wp, ap) && entry_ok(tf, wp, ap, props[i - 1], w, acc))
+    }
+}
+
 pub open spec fn ev(tf: TypeFunctions, w: W, e: Expr, r: Result<SourcedValue>, w2: W) -> bool
-    decreases e
+    decreases e, 0int
 {
     match e.0 {
         RawExpr::Null => plain(r, Value::Null) && w2 == w,
@@ -150,9 +206,9 @@ pub open spec fn ev(tf: TypeFunctions, w: W, e: Expr, r: Result<SourcedValue>, w
         }),
         // operands left then right, each once; the operator sees (lhs, rhs) in this order
         RawExpr::BinaryOp{op, op_loc, lhs, rhs} =>
-            exists|a: Result<SourcedValue>, w1: W| #![trigger wit(a, w1)] wit(a, w1) && ev(tf, w, *lhs, a, w1) && (match a {
+            exists|a: Result<SourcedValue>, w1: W| #![trigger wit(*lhs, a, w1)] wit(*lhs, a, w1) && ev(tf, w, *lhs, a, w1) && (match a {
                 Err(_) => r is Err && w2 == w1,
-                Ok(av) => exists|b: Result<SourcedValue>, wb: W| #![trigger wit(b, wb)] wit(b, wb) && ev(tf, w1, *rhs, b, wb) && w2 == wb && (match b {
+                Ok(av) => exists|b: Result<SourcedValue>, wb: W| #![trigger wit(*rhs, b, wb)] wit(*rhs, b, wb) && ev(tf, w1, *rhs, b, wb) && w2 == wb && (match b {
                     Err(_) => r is Err,
                     Ok(bv) => match sem_apply(op, op_loc, av.v, bv.v) { Ok(v) => plain(r, v), Err(_) => r is Err },
                 }),
@@ -169,7 +225,7 @@ pub open spec fn ev(tf: TypeFunctions, w: W, e: Expr, r: Result<SourcedValue>, w
         // s[i]: defined exactly for 0 <= i < len and is the i-th element / byte; o[k]: the property k,
         // remembering o as the place the value was read from; anything else is a type error
         RawExpr::Index{expr, location} =>
-            exists|s: Result<SourcedValue>, w1: W| #![trigger wit(s, w1)] wit(s, w1) && ev(tf, w, *expr, s, w1) && (match s {
+            exists|s: Result<SourcedValue>, w1: W| #![trigger wit(*expr, s, w1)] wit(*expr, s, w1) && ev(tf, w, *expr, s, w1) && (match s {
                 Err(_) => r is Err && w2 == w1,
                 Ok(sv) => match sv.v {
                     Value::Str(bs) => {
@@ -207,7 +263,7 @@ pub open spec fn ev(tf: TypeFunctions, w: W, e: Expr, r: Result<SourcedValue>, w
                     let (rb, wb) = match end { Some(s) => { let (x, y) = sem_index(wa, *s); (match x { Ok(v) => Ok::<Option<usize>, Error>(Some(v)), Err(er) => Err::<Option<usize>, Error>(er) }, y) }, None => (Ok::<Option<usize>, Error>(None), wa) };
                     match rb {
                         Err(_) => r is Err && w2 == wb,
-                        Ok(b) => exists|s: Result<SourcedValue>, w1: W| #![trigger wit(s, w1)] wit(s, w1) && ev(tf, wb, *expr, s, w1) && w2 == w1 && (match s {
+                        Ok(b) => exists|s: Result<SourcedValue>, w1: W| #![trigger wit(*expr, s, w1)] wit(*expr, s, w1) && ev(tf, wb, *expr, s, w1) && w2 == w1 && (match s {
                             Err(_) => r is Err,
                             Ok(sv) => match sv.v {
                                 Value::Str(bs) => match sem_str_range(bs@, a, b) { Ok(v) => r == Ok::<SourcedValue, Error>(v), Err(_) => err_at(r, e.1) },
@@ -235,10 +291,13 @@ pub open spec fn ev(tf: TypeFunctions, w: W, e: Expr, r: Result<SourcedValue>, w
                 },
             }
         },
-        RawExpr::Object{props} => true,   // object literal construction: see lit_props (separate clause)
+        RawExpr::Object{props} =>
+            (r matches Ok(x) ==> x.source is None && (x.v matches Value::Object(o) && lit_prefix(tf, w, props@, props@.len(), w2, o.0.0@)))
+            && (r is Err ==> exists|i: nat, wp: W, ap: Map<Seq<char>, SourcedValue>| #![trigger wit_fail(i, wp, ap)] wit_fail(i, wp, ap)
+                    && i < props@.len() && lit_prefix(tf, w, props@, i, wp, ap) && entry_fail(tf, wp, props@[i as int], w2)),
         // o.k is o["k"]; v->f looks f up in the type's namespace (undefined for null)
         RawExpr::Prop{expr, name, type_prop} =>
-            exists|s: Result<SourcedValue>, w1: W| #![trigger wit(s, w1)] wit(s, w1) && ev(tf, w, *expr, s, w1) && w2 == w1 && (match s {
+            exists|s: Result<SourcedValue>, w1: W| #![trigger wit(*expr, s, w1)] wit(*expr, s, w1) && ev(tf, w, *expr, s, w1) && w2 == w1 && (match s {
                 Err(_) => r is Err,
                 Ok(sv) => {
                     if type_prop {
@@ -270,8 +329,17 @@ pub open spec fn ev(tf: TypeFunctions, w: W, e: Expr, r: Result<SourcedValue>, w
 
 SPEC = r"""
     ensures
-        ev(context.builtins.type_functions, old(scopes).world(), *expr, r, final(scopes).world()), // [EXPR:expression_value_is_the_documented_one]
-        wit(r, final(scopes).world()),
+        (expr.0 is Var) ==> ev(context.builtins.type_functions, old(scopes).world(), *expr, r, final(scopes).world()), // [C20:reading_a_name_yields_its_innermost_declaration_or_an_error_at_that_name]
+        (expr.0 is BinaryOp) ==> ev(context.builtins.type_functions, old(scopes).world(), *expr, r, final(scopes).world()), // [C16:binary_operation_evaluates_lhs_then_rhs_once_and_applies_the_operator_to_them_in_order]
+        (expr.0 is Index) ==> ev(context.builtins.type_functions, old(scopes).world(), *expr, r, final(scopes).world()), // [C11:element_and_property_reads_are_defined_exactly_inside_the_sequence_or_for_present_keys_and_are_errors_otherwise]
+        (expr.0 is Prop) ==> ev(context.builtins.type_functions, old(scopes).world(), *expr, r, final(scopes).world()), // [C12:dot_name_reads_the_same_property_as_index_by_that_string_and_type_functions_are_defined_for_every_value_but_null]
+        (expr.0 is Object) ==> ev(context.builtins.type_functions, old(scopes).world(), *expr, r, final(scopes).world()), // [C12:object_literal_entries_are_evaluated_in_source_order_with_shorthand_spread_string_names_and_later_entries_winning]
+        (expr.0 is Range) ==> ev(context.builtins.type_functions, old(scopes).world(), *expr, r, final(scopes).world()), // [C06:range_is_exactly_the_ascending_integers_from_start_up_to_but_excluding_end]
+        (expr.0 is RangeIndex) ==> ev(context.builtins.type_functions, old(scopes).world(), *expr, r, final(scopes).world()), // [C11:range_read_evaluates_bounds_then_the_sequence_and_delegates_to_the_range_read_contract]
+        (expr.0 is List || expr.0 is Call || expr.0 is Func) ==> ev(context.builtins.type_functions, old(scopes).world(), *expr, r, final(scopes).world()), // [C14:list_literals_calls_and_function_values_delegate_to_their_contracts_and_closures_capture_the_current_chain]
+        (expr.0 is Null || expr.0 is Bool || expr.0 is Int || expr.0 is Str) ==> ev(context.builtins.type_functions, old(scopes).world(), *expr, r, final(scopes).world()), // [C01:literals_denote_their_values]
+        ev(context.builtins.type_functions, old(scopes).world(), *expr, r, final(scopes).world()), // [ANY:expression_value_is_the_documented_one]
+        wit(*expr, r, final(scopes).world()),
         r matches Err(e) ==> located(e), // [C17:expression_errors_are_located]
 """
 
@@ -303,11 +371,36 @@ def build(read):
     f = extract.rewrite_regex_once(
         f, r"(Error::OutOfStringBounds\{index\},\s*\),\s*\};\n)",
         r"\1                    proof { assert(v.v->Str_0@ == seq![s@[index as int]]); }\n", "eval_expr: string index hint")
+    f = extract.rewrite_once(f, "vals.insert(name.to_string(), v);", "vals.insert(name.clone(), v);", "eval_expr: String::to_string")
+    b.edits.append("D5: eval_expr (Object shorthand): `name.to_string()` on a String -> `name.clone()` (vstd has no spec for the blanket ToString impl; identical for String)")
     f = parts.annotate_closure(
         f, "new_loc_err", "source: Error", "Result<SourcedValue>",
         "r == Err::<SourcedValue, Error>(Error::AtLoc{source: Box::new(source), line: *line, col: *col})", "eval_expr")
     b.edits.append("annotation: closure `new_loc_err` given parameter type, named result and its literal postcondition")
-    f = extract.annotate_fn(f, spec=SPEC + "    decreases expr\n", attrs="#[verifier::loop_isolation(false)]\n#[verifier::allow_complex_invariants]")
+    hdr, body = extract.fn_header_body(f)
+    lp = extract.find_loops(body)
+    if [k for k, _, _ in lp] != ["for"]:
+        from common import Undecided
+        raise Undecided(f"eval_expr: expected exactly one loop (object literal entries), found {[k for k, _, _ in lp]}")
+    from verus_engine import desugar_for
+    body = desugar_for(body, 1)
+    b.edits.append("D5: eval_expr (Object arm): `for prop in props` -> Rust's own desugaring (ghost position needed)")
+    loops = {1: {"before": "let ghost tf = context.builtins.type_functions;\n            let ghost w0 = scopes.world();\n            let ghost mut gi: nat = 0;",
+                 "header": """                invariant
+                    gi <= props@.len(),
+                    __it.remaining() == props@.map_values(|s: PropItem| &s).subrange(gi as int, props@.len() as int),
+                    lit_prefix(tf, w0, props@, gi, scopes.world(), vals@),
+                    wit_st(scopes.world(), vals@),
+                    wit_fail(gi, scopes.world(), vals@),
+                ensures
+                    gi == props@.len(),
+                decreases props@.len() - gi"""}}
+    f = extract.annotate_fn(hdr + body, spec=SPEC + "    decreases expr\n", attrs="#[verifier::loop_isolation(false)]\n#[verifier::allow_complex_invariants]", loops=loops)
+    f = extract.rewrite_once(f, "        RawExpr::Object{props} => {\n",
+                             "        RawExpr::Object{props} => {\n            proof { reveal_with_fuel(ev, 2); reveal_with_fuel(lit_prefix, 2); reveal_with_fuel(entry_ok, 2); reveal_with_fuel(entry_fail, 2); }\n",
+                             "eval_expr: fuel for the object-literal specification (mutually recursive spec functions share fuel)")
+    f = extract.rewrite_once(f, "let prop = match __it.next() { Some(__x) => __x, None => break };\n",
+                             "let prop = match __it.next() { Some(__x) => __x, None => break };\n proof { gi = gi + 1; }\n", "eval_expr: ghost index")
     b.edits.append("D3: std BTreeMap<String, SourcedValue> replaced by an assumed finite-map contract; Arc/Mutex transparent (A-lock)")
 
     b.text = assemble([
